@@ -413,7 +413,9 @@ func (s *summaries) methodEffects(dir, tn, name string, depth int) []effect {
 			}
 		case *ast.SelectorExpr:
 			if isRecv(x.X) {
-				add(x.Pos(), x.Sel.Name, 'R')
+				if _, isMethod := p.methods[tn][x.Sel.Name]; !isMethod {
+					add(x.Pos(), x.Sel.Name, 'R')
+				}
 			}
 		case *ast.CallExpr:
 			if id, ok := x.Fun.(*ast.Ident); ok && id.Obj == nil {
